@@ -1,8 +1,10 @@
 #!/bin/bash
-# tools/mutate.sh <file under /repo/tensorflow_lattice/python> <python-regex> <replacement> <check ids...>
-# Applies a one-line deliberate break (first match) to /repo, runs the quick checks, reverts.
-F=/repo/tensorflow_lattice/python/$1; PAT="$2"; REP="$3"; shift 3
-/venv/bin/python - "$F" "$PAT" "$REP" <<'PY' || exit 9
+# tools/mutate.sh <file under tensorflow_lattice/python> <python-regex> <replacement> <check ids...>
+# Applies a one-line deliberate break (first match) to a scratch worktree of /repo's HEAD, runs the quick checks against it, removes it.
+FREL=tensorflow_lattice/python/$1; PAT="$2"; REP="$3"; shift 3
+W=/tmp/wt/mut.$$
+git -C /repo worktree add -q --detach $W HEAD || exit 9
+/venv/bin/python - "$W/$FREL" "$PAT" "$REP" <<'PY' || { git -C /repo worktree remove --force $W; exit 9; }
 import re,sys
 f,pat,rep=sys.argv[1:4]
 s=open(f).read()
@@ -11,5 +13,5 @@ if n[1]!=1: print("PATTERN NOT FOUND",pat); sys.exit(1)
 open(f,'w').write(n[0])
 PY
 cd /verif
-for c in "$@"; do ./check $c --tier quick 2>&1 | grep -v "^KNOWN-FINDING" | tail -3; done
-git -C /repo checkout -- . 
+for c in "$@"; do VERIF_REPO=$W ./check $c --tier quick 2>&1 | grep -v "^KNOWN-FINDING" | tail -3; done
+git -C /repo worktree remove --force $W
